@@ -190,3 +190,28 @@ META["C01"] = {
                    "documentation. Exploration: histories and inputs are sampled."),
     "level_note": "Trusted: errs.IsErrTransformFailed as the classifier named by the property; error identity compared with == for comparable errors, type+text otherwise.",
 }
+
+add("C13", "TestC13",
+    rule=("Cases: (a) gen.Shape schemas biased to the cache-sensitive transform flavour (textually identical declarations at several "
+          "positions, shared templates at two cursors, xpath_dynamic, javascript and javascript_with_context on the record and on its "
+          "parent) with 1-6 records, (b) a nested-same-name XML trap (<a>X<a>Y</a></a>) with the declaration {xpath:a} as array child and "
+          "as object child on one node. Each case runs under: everything enabled (reference), node pool off, per-record result cache off "
+          "(replica of ingester.Read using the hook constructor, first checked equal to Transform.Read), xpath expression cache capacity 1 / "
+          "emptied per record, javascript caching disabled, program cache capacity 1, node-JSON cache capacity 1 / emptied per record, "
+          "everything off, caches left warm by an earlier transform. Oracle: identical transcripts (kind, JSON). Non-trivial: >= 2 "
+          "records and a non-pass-through transform; distinct by SHA-256 of the case."),
+    quick={"checks": 250, "shards": 4, "timeout": 900},
+    thorough={"checks": 4000, "shards": 16, "timeout": 3300},
+    floors={"xform=3": 0.3, "mode=trap": 0.1, "warmed": 0.3},
+    assumptions=["uses the build-tag 'verif' hooks in /repo (idr.VerifSetNodeCaching, customfuncs.VerifSetDisableCaching/VerifResetCaches, "
+                 "transform.VerifNewParseCtxNoCache); caches.XPathExprCache, JSProgramCache and NodeToJSONCache are exported and swapped directly"])
+
+META["C13"] = {
+    "technique": "metamorphic property-based testing over cache/pool configurations (hooks under build tag verif)",
+    "design_ref": "DESIGN.md §5 C13",
+    "level_text": ("Every generated schema/input is run under eleven cache and pool configurations and must give identical transcripts. "
+                   "Generators aim at key collisions (identical declaration text at different positions, nested same-name nodes, changing "
+                   "ancestors). Exploration."),
+    "level_note": ("Trusted: the replica of ingester.Read used for the result-cache-off runs (checked equal to Transform.Read under the default "
+                   "configuration in every case). Process-global switches: one case at a time per process."),
+}
